@@ -96,8 +96,13 @@ fn gen_clean_tfm(r: &mut Rng) -> Vec<u8> {
     // distinct non-zero heights / depths / italic corrections (compress must leave them alone)
     let full = r.below(40) == 0;
     let lh = match r.below(8) { 0 | 1 => 2u16, 2 => 12 + r.below(6) as u16, 3 => 17, 4 | 5 => 18, 6 => 19 + r.below(3) as u16, _ => if r.below(6) == 0 { 257 + r.below(40) as u16 } else { 18 } };
-    let bc = if full { 0 } else { r.below(4) as u16 + if r.below(3) == 0 { 65 } else { 0 } };
-    let nchars = if full { 255 } else { 1 + r.below(6) as u16 };
+    // one file in 5 spreads a few characters over a long range of codes (most codes absent), so that 7-bit and 8-bit
+    // characters meet in lig/kern steps, next-larger links and extensible recipes
+    let spread = !full && r.below(5) == 0;
+    let bc = if full { 0 } else if spread { 100 + r.below(20) as u16 } else { r.below(4) as u16 + if r.below(3) == 0 { 65 } else { 0 } };
+    let nchars = if full { 255 } else if spread { 60 + r.below(60) as u16 } else { 1 + r.below(6) as u16 };
+    // (which codes of the range exist: all of them unless `spread`)
+    let present: Vec<bool> = (0..nchars).map(|k| !spread || k == 0 || k + 1 == nchars || r.below(9) == 0).collect();
     let ec = bc + nchars - 1;
     let (nw, nh, nd, ni) = if full { (256u16, 16u16, 16u16, 64u16) } else { (2 + r.below(3) as u16, 1 + r.below(3) as u16, 1 + r.below(3) as u16, 1 + r.below(3) as u16) };
     let nl = r.below(9) as u16; let nk = if nl > 0 { 1 + r.below(3) as u16 } else { 0 }; let ne = r.below(3) as u16; let np = r.below(9) as u16;
@@ -120,18 +125,31 @@ fn gen_clean_tfm(r: &mut Rng) -> Vec<u8> {
     hdr.extend(bcpl(r, 40));
     hdr.extend(bcpl(r, 20));
     let face = if r.below(2) == 0 { r.below(18) as u8 } else { r.below(256) as u8 };
-    hdr.extend([0u8, 0, 0, face]);
-    while hdr.len() < (lh as usize - 2) * 4 { hdr.extend((r.below(1 << 30) as u32).to_be_bytes()); }
+    // SEVENBITSAFEFLAG: claimed for a third of the files (a file that claims it wrongly converts WITH a warning and is not judged)
+    // (never in the 255-character files; in the `spread` files the font is then BUILT seven-bit safe, see below)
+    let sbs: u8 = if !full && r.below(3) == 0 { 128 } else { 0 };
+    let claim = sbs == 128 && lh >= 18;
+    hdr.extend([sbs, 0, 0, face]);
+    // extra header words: a third of them zero (trailing zero words must survive too)
+    while hdr.len() < (lh as usize - 2) * 4 { hdr.extend((if r.below(3) == 0 { 0 } else { r.below(1 << 30) as u32 }).to_be_bytes()); }
     hdr.truncate((lh as usize - 2) * 4);
     b.extend(hdr);
-    let some_char = |r: &mut Rng| (bc + r.below(nchars as u64) as u16) as u8;
+    let existing: Vec<u16> = (0..nchars).filter(|k| present[*k as usize]).collect();
+    let some_char = |r: &mut Rng| (bc + existing[r.below(existing.len() as u64) as usize]) as u8;
+    // a font that CLAIMS seven-bit safety and has 8-bit characters is built safe: every lig/kern step looks at an 8-bit right
+    // character (such a step can never fire on 7-bit input, whatever it inserts), next-larger links stay within 7 or 8 bits,
+    // only 8-bit characters have recipes and recipes are made of 8-bit pieces
+    let eight: Vec<u16> = existing.iter().copied().filter(|k| bc + k >= 128).collect();
+    let safe_build = claim && spread && !eight.is_empty();
+    let eight_char = |r: &mut Rng| (bc + eight[r.below(eight.len() as u64) as usize]) as u8;
     for k in 0..nchars {
+        if !present[k as usize] { b.extend([0u8, 0, 0, 0]); continue; }
         let (w, h, d, i) = if full { ((k + 1) as u8, (k % 16) as u8, ((k / 16) % 16) as u8, (k % 64) as u8) }
             else { (1 + r.below(nw as u64 - 1) as u8, r.below(nh as u64) as u8, r.below(nd as u64) as u8, r.below(ni as u64) as u8) };
         let (tag, rem) = match r.below(5) {
             0 if nl > 0 => (1u8, r.below(nl as u64) as u8),
-            1 if k + 1 < nchars => (2u8, (bc + k + 1) as u8),
-            2 if ne > 0 => (3u8, r.below(ne as u64) as u8),
+            1 if k + 1 < nchars && present[k as usize + 1] && (!safe_build || ((bc + k >= 128) == (bc + k + 1 >= 128))) => (2u8, (bc + k + 1) as u8),
+            2 if ne > 0 && (!safe_build || bc + k >= 128) => (3u8, r.below(ne as u64) as u8),
             _ => (0u8, 0u8),
         };
         b.extend([w, (h << 4) | d, (i << 2) | tag, rem]);
@@ -143,13 +161,15 @@ fn gen_clean_tfm(r: &mut Rng) -> Vec<u8> {
     } }
     for k in 0..nl {
         let skip: u8 = if k + 1 == nl || r.below(3) == 0 { 128 } else { 0 };
-        let next = some_char(r);
+        let next = if safe_build { eight_char(r) } else { some_char(r) };
         let (op, rem) = if r.below(2) == 0 { (128u8, r.below(nk as u64) as u8) } else { ([0u8, 1, 2, 3, 5, 6, 7, 11][r.below(8) as usize], some_char(r)) };
         b.extend([skip, next, op, rem]);
     }
     for _ in 0..nk { b.extend((r.below(1 << 20) as u32).wrapping_sub(1 << 19).to_be_bytes()); }
-    for _ in 0..ne { for j in 0..4 { b.push(if j < 3 && r.below(2) == 0 { 0 } else { some_char(r) }); } }
+    for _ in 0..ne { for j in 0..4 { b.push(if j < 3 && r.below(2) == 0 { 0 } else if safe_build { eight_char(r) } else { some_char(r) }); } }
     for _ in 0..np { b.extend((r.below(1 << 22) as u32).to_be_bytes()); }
+    // a claim of seven-bit safety that the generator cannot vouch for is withdrawn (TFtoPL does not check the claim, PLtoTF does)
+    if claim && spread && !safe_build { b[24 + 68] = 0; }
     b
 }
 
@@ -168,6 +188,17 @@ fn fingerprint_n(bytes: &[u8], reference: &[u8], extra_words: usize) -> Option<S
     // shorter header gets PLtoTF's defaults in the canonical file)
     let mut out = format!("design {:?} params {:?} checksum {:?} extra {:?} scheme {:?} family {:?} face {:?}\n", f.header.design_size, f.params, f.header.checksum, f.header.additional_data.iter().take(extra_words).collect::<Vec<_>>(),
         rh.character_coding_scheme.as_ref().and(f.header.character_coding_scheme.as_ref()), rh.font_family.as_ref().and(f.header.font_family.as_ref()), rh.face.as_ref().and(f.header.face.as_ref()));
+    // SEVENBITSAFEFLAG: PLtoTF writes the flag it COMPUTES, so FALSE may legitimately become TRUE for a font that is safe; what
+    // must hold: a flag that was TRUE stays TRUE (no warning was raised), and a font that is visibly unsafe - a 7-bit character
+    // linked to an 8-bit one by NEXTLARGER or by a piece of its extensible recipe - never gets TRUE
+    let reference = crate::File::deserialize(reference).0.ok()?;
+    let unsafe_by_links = reference.char_tags.iter().any(|(c, t)| c.0 < 128 && match t {
+        crate::CharTag::List(n) => n.0 >= 128,
+        crate::CharTag::Extension(e) => reference.extensible_chars.get(*e as usize).map_or(false, |r| r.rep.0 >= 128 || [r.top, r.middle, r.bottom].iter().any(|p| p.map_or(false, |p| p.0 >= 128))),
+        _ => false,
+    });
+    if rh.seven_bit_safe == Some(true) { out.push_str(&format!("seven bit safe flag (claimed by the original) {:?}\n", f.header.seven_bit_safe)); }
+    if unsafe_by_links { out.push_str(&format!("a font with a 7-bit character linked to an 8-bit one says it is seven-bit safe: {}\n", f.header.seven_bit_safe == Some(true))); }
     for (c, d) in &f.char_dimens {
         let v = |t: &Vec<crate::FixWord>, i: usize| t.get(i).map(|x| x.0);
         out.push_str(&format!("{:?}: w {:?} h {:?} d {:?} i {:?}", c, v(&f.widths, d.width_index.get() as usize), v(&f.heights, d.height_index as usize), v(&f.depths, d.depth_index as usize), v(&f.italic_corrections, d.italic_index as usize)));
@@ -289,7 +320,9 @@ fn whole_files() {
                     else if t2.as_ref() != Some(&t1) { Some("a further PL round trip changes the canonical .tfm".to_string()) }
                     else if is_clean_gen && read_header(&b) != Some(raw_header(&b)) { Some(format!("the TFM reader reports the header {:?} for a file whose bytes hold {:?}", read_header(&b), raw_header(&b)).replace('"', "'")) }
                     else if is_clean_gen && { let (rs, rf, rface) = raw_header(&b); let got = read_header(&t1); got.as_ref().map_or(true, |g| (rs.is_some() && g.0 != rs) || (rf.is_some() && g.1 != rf) || (rface.is_some() && g.2 != rface)) } { Some(format!("the canonical .tfm has the header {:?}, the original's bytes hold {:?}", read_header(&t1), raw_header(&b)).replace('"', "'")) }
-                    else if fingerprint(&b, &b) != fingerprint(&t1, &b) { Some(format!("the canonical .tfm has a different header or gives some character different dimensions, links, recipes or parameters: {:?} became {:?}", fingerprint(&b, &b), fingerprint(&t1, &b)).replace('"', "'").replace('\\', "/").chars().take(700).collect()) }
+                    else if fingerprint(&b, &b) != fingerprint(&t1, &b) { Some({ let (fa, fb) = (fingerprint(&b, &b).unwrap_or_default(), fingerprint(&t1, &b).unwrap_or_default());
+                        let d = fa.lines().zip(fb.lines()).find(|(x, y)| x != y).map(|(x, y)| format!("`{x}` became `{y}`")).unwrap_or_else(|| format!("{} lines became {}", fa.lines().count(), fb.lines().count()));
+                        format!("the canonical .tfm has a different header or gives some character different dimensions, links, recipes or parameters: {d}") }.replace('"', "'").replace('\\', "/").chars().take(700).collect()) }
                     else if pl2.as_ref().map(|p| font_description(p)) != Some(font_description(&pl)) { Some("the canonical .tfm describes a different font (its property list differs from the original's beyond the header defaults PLtoTF always writes)".to_string()) }
                     else { None };
                 if let Some(pb) = problem {
